@@ -30,6 +30,11 @@ class OperatorAdd(OperatorBase):
         left, right = tokens.get_left(), tokens.get_right()
         if left is None and isinstance(right, tokens.atom):
             tokens.put_left(right)        
+        elif isinstance(left, tokens.atom) and isinstance(right, (OperatorAdd, OperatorSub)):
+            # binary operator followed by a sign chain: the signs belong to the next operand
+            tokens.put_left(left)
+            tokens.put_left(OperatorAdd())
+            tokens.put_right(right)
         elif isinstance(right, OperatorAdd):
             tokens.put_left(left)
             tokens.put_right(right)
@@ -56,6 +61,11 @@ class OperatorSub(OperatorBase):
         left, right = tokens.get_left(), tokens.get_right()
         if left is None and isinstance(right, tokens.atom):
             tokens.put_left(-right)
+        elif isinstance(left, tokens.atom) and isinstance(right, (OperatorAdd, OperatorSub)):
+            # binary operator followed by a sign chain: the signs belong to the next operand
+            tokens.put_left(left)
+            tokens.put_left(OperatorSub())
+            tokens.put_right(right)
         elif isinstance(right, OperatorAdd):
             tokens.put_left(left)
             tokens.put_right(OperatorSub())
